@@ -79,6 +79,10 @@ pub fn run(ctx: &Ctx) -> Report {
                             }
                             let rcfg = RCfg { e, kind, be };
                             read_case("C03", &case, &wr, rcfg, *rop, rep, (ci + mi) as u8);
+                            if !long && (ctx.tier == Tier::Thorough || (ci + mi + oi) % 2 == 0) {
+                                let sbe = RBackend::STRICT[(ci + oi + mi + w) % RBackend::STRICT.len()];
+                                read_case_tail(&case, &wr, RCfg { e, kind, be: sbe }, *rop, rep, (ci + mi + 1) as u8);
+                            }
                             let bl = 64 - (v | 1).leading_zeros();
                             if len > 1 {
                                 rep.case(&(code, bl, off % w, e, *ww, kind, *rop));
@@ -99,7 +103,11 @@ pub fn replay(case: &str, rep: &mut Report) {
     if let Some(wr) = write_case("C03", &c, rep, false, false) {
         if let (Some(rc), Some(rop)) = (kv.opt("rcfg"), kv.opt("rop")) {
             let ap: u8 = kv.opt("approach").and_then(|s| s.parse().ok()).unwrap_or(0);
-            read_case("C03", &c, &wr, parse_rcfg(rc), parse_codeop(rop), rep, ap);
+            if kv.opt("tail").is_some() {
+                read_case_tail(&c, &wr, parse_rcfg(rc), parse_codeop(rop), rep, ap);
+            } else {
+                read_case("C03", &c, &wr, parse_rcfg(rc), parse_codeop(rop), rep, ap);
+            }
         }
     }
 }
